@@ -30,7 +30,9 @@ ASSUMPTIONS = [
     "listed identically",
 ]
 
-FAULT_KINDS = ["dangling", "loop", "fifo", "sock", "phantom", "enoent", "eacces", "dotdot", "dotbs", "bsbs", "linktofile"]
+FAULT_KINDS = ["dangling", "loop", "fifo", "sock", "phantom", "enoent", "eacces", "dotdot", "dotbs", "bsbs", "linktofile",
+               # an entry removed while the listing is being built: its first stat (or first two) still succeeds
+               "vanish1", "vanish2"]
 FORMS = ["gopher", "gophers", "gplus", "gdollar", "http", "https", "wap", "gemini", "spartan"]
 
 
@@ -68,7 +70,7 @@ def _case(draw):
             name = draw(st.sampled_from([".cap", ".cap", ".names", ".Links", ".abstract", "gophermap", ".cache.pygopherd.dir"]))
         if kind == "linktofile" and name != ".cap":
             kind = "dangling"
-        if kind in ("enoent", "eacces") and any(name.endswith(e) and name[:-len(e)] in used for e in (".abstract", ".keywords", ".ask", ".3d")):
+        if kind in ("enoent", "eacces", "vanish1", "vanish2") and any(name.endswith(e) and name[:-len(e)] in used for e in (".abstract", ".keywords", ".ask", ".3d")):
             # it would be the (readable) sidecar of a good entry: whether its text shows is not this property's business
             name = "q" + name
         if name in used:
@@ -146,6 +148,10 @@ def _spec(case, with_faults):
                 spec.append([pre + name, kind, None])
         elif kind == "phantom":
             phantoms.append(name)
+        elif kind in ("vanish1", "vanish2"):
+            if with_faults:
+                spec.append([pre + name, "f", "victim\n"])
+                shim_stat[pre + name] = (errno.ENOENT, int(kind[-1]))
         elif kind in ("enoent", "eacces"):
             if with_faults:
                 spec.append([pre + name, "f", "victim\n"])
@@ -168,6 +174,7 @@ class _Shims:
         self.o_stat, self.o_listdir = os.stat, os.listdir
         o_stat, o_listdir = self.o_stat, self.o_listdir
         stat_fail, dirb, phantoms = self.stat_fail, self.dirb, self.phantoms
+        calls = {}
 
         def stat(path, *a, **k):
             try:
@@ -175,7 +182,14 @@ class _Shims:
             except TypeError:
                 pb = None
             if pb is not None and pb in stat_fail:
-                raise OSError(stat_fail[pb], os.strerror(stat_fail[pb]), path)
+                f_ = stat_fail[pb]
+                if isinstance(f_, tuple):
+                    # fails from the (n+1)-th look onwards
+                    calls[pb] = calls.get(pb, 0) + 1
+                    if calls[pb] > f_[1]:
+                        raise OSError(f_[0], os.strerror(f_[0]), path)
+                    return o_stat(path, *a, **k)
+                raise OSError(f_, os.strerror(f_), path)
             return o_stat(path, *a, **k)
 
         def listdir(path=".", *a, **k):
